@@ -125,6 +125,7 @@ def lexrun(seed, tier, log=print, extra_modes=('p',)):
         lines += caps[i].raw
         lines.append('Q CERT')
         lines.append('Q PASSES')
+        lines.append('Q FROMDFA')
         lines.append('Q WF')
         for b in inputs[i]:
             lines.append('Q LEX n ' + P.hexs(b))
